@@ -114,11 +114,18 @@ Definition m_success_sound (c : cond) (tbl : list (rec nat)) (ca : list (nat * c
   forallb (fun ev => negb (wstatus_eqb (snd ev) WSuccessful)
                      || m_holds c (m_rec tbl (fst ev)) (m_obs ca (fst ev))) e.
 
+(* every Pending or Failed event is justified as well *)
+Definition m_nonsuccess_sound (c : cond) (tbl : list (rec nat)) (ca : list (nat * cobs))
+           (e : list (nat * wstatus)) : bool :=
+  forallb (fun ev => negb (wstatus_eqb (snd ev) WPending || wstatus_eqb (snd ev) WFailed)
+                     || negb (m_holds_suff c (m_rec tbl (fst ev)) (m_obs ca (fst ev)))) e.
+
 Definition m_start (c : cond) (ids : list nat) (tbl : list (rec nat)) (ca : list (nat * cobs))
            (e : list (nat * wstatus)) : bool :=
   forallb (fun ev => inb (fst ev) ids) e
   && forallb (fun i => Nat.eqb (count_ev i e) 1) ids
   && m_success_sound c tbl ca e
+  && m_nonsuccess_sound c tbl ca e
   && forallb (fun ev => negb (wstatus_eqb (snd ev) WTimeout)) e
   (* failed / skipped actuation <-> Skipped *)
   && forallb (fun i => negb (m_act_skipped c (m_rec tbl i)) || m_last_is e i WSkipped) ids
@@ -137,8 +144,12 @@ Definition m_update (c : cond) (ids : list nat) (tbl : list (rec nat)) (ca : lis
   && (negb (m_last_is past i WSkipped) || nil_b e)
   (* reported failed, condition holds now -> reported reconciled *)
   && (negb (m_last_is past i WFailed && m_holds_suff c r o) || list_eqb ev_eqb e [(i, WSuccessful)])
-  (* reported reconciled, condition no longer holds -> reported pending *)
-  && (negb (m_last_is past i WSuccessful && negb (m_holds_suff c r o)) || list_eqb ev_eqb e [(i, WPending)]).
+  (* reported reconciled, condition no longer holds -> reported pending again
+     (failed when an applied object was replaced) *)
+  && (negb (m_last_is past i WSuccessful && negb (m_holds_suff c r o))
+      || list_eqb ev_eqb e [(i, if is_current c && m_replaced r o then WFailed else WPending)])
+  (* Pending / Failed are reported only while the condition does not hold *)
+  && m_nonsuccess_sound c tbl ca e.
 
 Definition m_timeout (ids : list nat) (past : list (nat * wstatus)) (ended : bool)
            (e : list (nat * wstatus)) : bool :=
